@@ -4,6 +4,7 @@
    (inside the file, begin <= end + 1 and well-bracketing are); what is proved
    for all inputs is listed below (well-bracketed events, event tables, offsets), the rest is covered by the per-Next() correspondence and the exactness runs. *)
 From JS Require Import Base Bytes Scanner ScanRun C12Proofs EventSafe.
+From JS Require ProjectSafe Core.
 From JS Require ExtentSafe InFile OrderSafe GrammarSafe.
 From Coq Require Import Lia.
 From JS Require LexemeEvents ScannerProg.
@@ -127,6 +128,18 @@ Theorem C12_f2_regression :
   match snd (fst (scan_case f2_input [])) with EndErr _ => true | _ => false end = true.
 Proof. exact f2_regression. Qed.
 
+(* FOR WHOLE PROJECTS (Proofs/ProjectSafe.v): every lexeme Next() delivers during a run of
+   scanProject - in the root file or any included file, after any number of suspensions and
+   resumptions, the INCLUDE keyword and its file name included - has a well-formed extent *)
+Theorem C12_project_lexeme_extents_are_never_inverted :
+  forall fs olen root_name root_content fuel,
+    Forall (fun st => match Core.scan_next ScannerProg.prog_table ScannerProg.is_newline_cond ScannerProg.is_whitespace_cond olen st with
+                      | ROk (Some l, _) => lb l <= le l + 1
+                      | _ => True
+                      end)
+           (ProjectSafe.next_calls fs olen fuel (Core.initial_cstate ScannerProg.initial_state root_name root_content)).
+Proof. exact ProjectSafe.project_lexeme_extents_are_never_inverted. Qed.
+
 Print Assumptions C12_lexeme_events_are_well_bracketed.
 Print Assumptions C12_queued_events_always_process.
 Print Assumptions C12_lexeme_extents_are_never_inverted.
@@ -138,3 +151,4 @@ Print Assumptions C12_event_offsets_partial.
 Print Assumptions C12_event_tables.
 Print Assumptions C12_lexeme_from_events.
 Print Assumptions C12_f2_regression.
+Print Assumptions C12_project_lexeme_extents_are_never_inverted.
